@@ -123,21 +123,63 @@ theorem loopKeysOk_iff (Lx Ly Lz : Nat) (hx : 1 ≤ Lx) (hy : 1 ≤ Ly) (hz : 1 
 /-- no `KeyError` -/
 def NoKeyError (e : XErr) : Prop := ∀ k, e ≠ .keyError k
 
-/-- on a lattice with `Lx ≤ Ly ≤ Lz` the loop scatter never raises, for every list of cells, every
-    plane of the projection axis and every vector -/
-theorem errs_loopScatter_ascending (d : XCubeDec W)
-    (hq : d.qubits = qubits d.Lx d.Ly d.Lz) (hok : LoopKeysOk d.Lx d.Ly d.Lz)
+/-- every key the loop scatter of this decoder object can ask `qubit_index` for exists: cells of
+    the grid `decode_plane` is given for the projection axis, lifted to a plane of that axis -/
+def PlaneKeysOk (d : XCubeDec W) : Prop :=
+  ∀ (proj : Axis) (c : Coord) (p : Int), Cell (d.planeSizes proj).1 (d.planeSizes proj).2 c →
+    R1 (2 * d.side proj) p → (qubitIndex? d.qubits (tupleInsert c proj.toNat p)).isSome = true
+
+/-- **the repaired code** (`decode_plane` given the two sizes of the projected plane): every key
+    exists, on every lattice -/
+theorem planeKeysOk_current (d : XCubeDec W) (hq : d.qubits = qubits d.Lx d.Ly d.Lz)
+    (hp : d.planeSizes = planeSizesOf d.Lx d.Ly d.Lz) : PlaneKeysOk d := by
+  intro proj c p hc hp1
+  rw [hp] at hc
+  obtain ⟨x, y, rfl, hcx, hcy⟩ := hc
+  rw [qubitIndex?_isSome_iff, hq]
+  unfold R0 at hcx hcy
+  unfold R1 at hp1
+  cases proj
+  · simp only [planeSizesOf] at hcx hcy
+    simp only [tupleInsert, Axis.toNat, List.insertIdx_zero]
+    rw [mem_qubits_iff]
+    left; unfold QX R0 R1; simp only [XCubeDec.side] at hp1; omega
+  · simp only [planeSizesOf] at hcx hcy
+    simp only [tupleInsert, Axis.toNat, List.insertIdx_succ_cons, List.insertIdx_zero]
+    rw [mem_qubits_iff]
+    right; left; unfold QY R0 R1; simp only [XCubeDec.side] at hp1; omega
+  · simp only [planeSizesOf] at hcx hcy
+    simp only [tupleInsert, Axis.toNat, List.insertIdx_succ_cons, List.insertIdx_zero]
+    rw [mem_qubits_iff]
+    right; right; unfold QZ R0 R1; simp only [XCubeDec.side] at hp1; omega
+
+/-- **the code before 869642d** (`decode_plane` always given `(Lx, Ly)`): every key exists iff
+    `Lx ≤ Ly ≤ Lz` -/
+theorem planeKeysOk_old_iff (d : XCubeDec W) (hq : d.qubits = qubits d.Lx d.Ly d.Lz)
+    (hx : 1 ≤ d.Lx) (hy : 1 ≤ d.Ly) (hz : 1 ≤ d.Lz) :
+    PlaneKeysOk d.old ↔ d.Lx ≤ d.Ly ∧ d.Ly ≤ d.Lz := by
+  rw [← loopKeysOk_iff d.Lx d.Ly d.Lz hx hy hz]
+  have hside : ∀ proj, d.old.side proj = sideOf d.Lx d.Ly d.Lz proj := by intro proj; cases proj <;> rfl
+  constructor
+  · intro h proj c p hc hp
+    have := h proj c p hc (by rw [hside]; exact hp)
+    rw [← hq]; exact this
+  · intro h proj c p hc hp
+    have := h proj c p hc (by rw [← hside]; exact hp)
+    rw [← hq] at this; exact this
+
+/-- when all keys exist the loop scatter never raises, for every list of cells, every plane of
+    the projection axis and every vector -/
+theorem errs_loopScatter_of_keys (d : XCubeDec W) (hok : PlaneKeysOk d)
     (proj : Axis) (pp : Int) (hpp : R1 (2 * d.side proj) pp) (coords : List Coord)
-    (hc : ∀ c ∈ coords, Cell d.Lx d.Ly c) (pc : Vec) :
+    (hc : ∀ c ∈ coords, Cell (d.planeSizes proj).1 (d.planeSizes proj).2 c) (pc : Vec) :
     Errs (loopScatter d proj pp coords pc) (fun _ => False) := by
   unfold loopScatter
   refine errs_forM' (fun _ => True) ?_ pc trivial
   intro st c hcm _
   refine ⟨?_, post_true _⟩
   simp only
-  have hside : d.side proj = sideOf d.Lx d.Ly d.Lz proj := by cases proj <;> rfl
-  have := hok proj c pp (hc c hcm) (hside ▸ hpp)
-  rw [← hq] at this
+  have := hok proj c pp (hc c hcm) hpp
   cases hqi : qubitIndex? d.qubits (tupleInsert c proj.toNat pp) with
   | none => rw [hqi] at this; simp at this
   | some i =>
